@@ -44,6 +44,8 @@ type FSObs struct {
 	Injected  int
 	// KeepData=false drops write payloads (saves memory when no image is needed).
 	KeepData bool
+	// MarkFn, when set, supplies the marker of each mutation.
+	MarkFn func() int
 }
 
 // NewFSObs installs an observer for the database rooted at dir.
@@ -110,6 +112,9 @@ func (o *FSObs) hook(op, path string, off int64, data []byte) (bool, int, error)
 	o.mu.Lock()
 	defer o.mu.Unlock()
 	m := Mut{Op: op, Path: rel, Off: off, Seq: len(o.Muts), Mark: o.Mark}
+	if o.MarkFn != nil {
+		m.Mark = o.MarkFn()
+	}
 	if op == "write" {
 		m.Data = append([]byte(nil), data...)
 	}
